@@ -17,6 +17,14 @@ STUB_WS = ["TCP/socket: sim link (two FIFO octet pipes with segmentation, stall,
            "reactor / selector I/O dispatch: SimReactor (task.Clock) / SimLoop selector phase",
            "wall clock, os.urandom, random: seeded shims on module attributes"]
 
+REAL_WAMP = ["autobahn.wamp.protocol (ApplicationSession / Session state machine, request tables, dispatch)",
+             "autobahn.wamp.message + autobahn.wamp.serializer (JSON, CBOR, MsgPack, UBJSON): real marshal/serialize/unserialize/parse round trip in both directions",
+             "autobahn.wamp.request, types, exception, uri", "autobahn.twisted.wamp / autobahn.asyncio.wamp session classes",
+             "txaio, Twisted Deferred / asyncio Future+Task machinery"]
+STUB_WAMP = ["WAMP transport: StubTransport (ITransport) - send() round-trips through the real serializer; close()/abort() start closing, onClose arrives later",
+             "WAMP router: scripted broker/dealer speaking through the library's message classes (trusted base)",
+             "reactor / event loop I/O: SimReactor / SimLoop", "randomness / wall clock: seeded shims"]
+
 META = {
     "C01": {
         "title": "WebSocket messages arrive intact, exactly once and in order",
@@ -122,5 +130,33 @@ META = {
         "real": REAL_WS,
         "stub": STUB_WS + ["wire monitor decompressors: zlib / bz2 / brotli used directly"],
         "design_ref": "DESIGN.md section 4, C12",
+    },
+    "C04": {
+        "title": "Each WAMP request completes exactly once with its own reply",
+        "budgets": {"quick": (250000, 60), "thorough": (6000000, 1200)},
+        "variants": ALL_VARIANTS,
+        "rule": ("one run = joined session, up to 14 API operations (call / publish / subscribe / register / unsubscribe "
+                 "/ unregister / cancel with 8 payload shapes and all option classes) interleaved with router actions: "
+                 "answer any outstanding request (success, error, progressive results), adversarial replies (duplicate, "
+                 "unknown id, wrong type, wrong error type, PUBLISHED for unacknowledged publish, EVENT for unknown id, "
+                 "handshake message after join), EVENT/INVOCATION pushes, transport loss (cut mode); id generator "
+                 "started near 2^53 in some runs; non-trivial = at least 2 requests answered; distinct = hash of "
+                 "(action kind, session state) sequence"),
+        "real": REAL_WAMP,
+        "stub": STUB_WAMP,
+        "design_ref": "DESIGN.md section 4, C04",
+    },
+    "C11": {
+        "title": "Events reach exactly the handlers subscribed at that moment",
+        "budgets": {"quick": (120000, 60), "thorough": (4000000, 1200)},
+        "variants": ALL_VARIANTS,
+        "rule": ("one run = joined session, up to 17 operations: subscribe (3 topics, plain callables sync/async, "
+                 "raising, self-/next-/previous-unsubscribing handlers, details_arg, decorated objects), unsubscribe, "
+                 "router SUBSCRIBED (shared id per topic) / ERROR / UNSUBSCRIBED in any order, EVENTs for live ids, for "
+                 "ids in the unsubscribe race window and for ids never held; non-trivial = at least one event invoked "
+                 "a handler; distinct = hash of (action kind, session state) sequence"),
+        "real": REAL_WAMP,
+        "stub": STUB_WAMP,
+        "design_ref": "DESIGN.md section 4, C11",
     },
 }
